@@ -504,7 +504,7 @@ func newContractSet() *ContractSet {
 var clauseKeywords = map[string]bool{
 	"func": true, "on_lock": true, "extern": true, "requires": true, "requires_locked": true, "ensures": true, "modifies": true, "nopanic": true,
 	"loop": true, "specfunc": true, "ghost": true, "ghostsum": true, "ghost_set": true, "lockinv": true, "axiom": true, "trusted": true,
-	"pure": true, "inline": true, "held": true, "acquires": true, "assert": true, "package": true, "invariant": true, "lemma": true, "unknown_calls_modify": true,
+	"pure": true, "inline": true, "held": true, "acquires": true, "assert": true, "package": true, "invariant": true, "lemma": true, "lemma_at": true, "unknown_calls_modify": true,
 }
 
 // splitLabel splits "label: expr" (label is a bare identifier followed by ':' but not '::').
@@ -741,8 +741,11 @@ func (cs *ContractSet) parseContractText(file, pkgPath string, lines []string, l
 		case "acquires":
 			// the function returns holding this mutex (e.g. "result.mu")
 			cur.Acquires = append(cur.Acquires, strings.TrimSpace(rest))
-		case "assert":
+		case "assert", "lemma_at":
 			// assert label: at Callee#k :: expr      (call-site rule: holds whenever that call is reached)
+			// lemma_at label: at Callee#k :: expr    (a mathematical consequence of the facts in force at
+			//   that point which the solvers cannot derive, e.g. pigeonhole; assumed there, never checked,
+			//   listed in the evidence)
 			label, body := splitLabel(rest)
 			at := ""
 			if strings.HasPrefix(body, "at ") {
@@ -754,7 +757,7 @@ func (cs *ContractSet) parseContractText(file, pkgPath string, lines []string, l
 			if at == "" {
 				return fmt.Errorf("%s:%d: assert needs 'at Callee#k :: expr'", file, it.line)
 			}
-			c, err := mk("assert", label+": "+body, it.line)
+			c, err := mk(kw, label+": "+body, it.line)
 			if err != nil {
 				return err
 			}
